@@ -508,6 +508,63 @@ pub fn shared_fields_program(r: &mut Rng) -> Vec<u8> {
     a.finish()
 }
 
+/// hashes over unusual memory regions (empty, one byte, not a multiple of a word, unaligned, three
+/// words) combined with the arithmetic the lifting passes look for and used as storage keys, as
+/// stored values, or merely returned
+pub fn odd_hash_program(r: &mut Rng) -> Vec<u8> {
+    let mut bs: Vec<Vec<u8>> = vec![];
+    for _ in 0..1 + r.below(3) {
+        let mut a = vm::Asm::new(0);
+        if r.chance(1, 2) {
+            // something in memory first
+            a.push_u(r.below(12) as u64);
+            a.push_u([0u64, 0x20, 5][r.below(3)]);
+            a.op(0x52);
+        }
+        let (off, size) = [(0u64, 0u64), (0, 1), (0, 0x1f), (0, 0x21), (0x20, 0), (5, 0x20), (0, 0x60), (0, 0x20), (0, 0x40)][r.below(9)];
+        a.push_u(size);
+        a.push_u(off);
+        a.op(0x20);
+        match r.below(4) {
+            0 => {
+                a.push_u(1 + r.below(3) as u64);
+                a.op(0x01);
+            }
+            1 => {
+                a.push_u(4);
+                a.op(0x35);
+                a.op(0x01);
+            }
+            2 => {
+                a.push_u(0);
+                a.op(0x54);
+                a.op(0x01);
+            }
+            _ => {}
+        }
+        match r.below(4) {
+            0 => {
+                a.op(0x54);
+                ret_top(&mut a);
+            }
+            1 => {
+                a.op(0x33);
+                a.op(0x90);
+                a.op(0x55);
+                a.op(0x00);
+            }
+            2 => {
+                a.push_u(r.below(4) as u64);
+                a.op(0x55);
+                a.op(0x00);
+            }
+            _ => ret_top(&mut a),
+        }
+        bs.push(a.bytes);
+    }
+    assemble(&bs, r.below(2))
+}
+
 /// real storage accesses whose results meet look-alike hashes (keccak(key . CONST),
 /// keccak(CONST) + i) in the same expression, outside the access itself
 pub fn mixed_lookalike_program(r: &mut Rng) -> Vec<u8> {
